@@ -12,7 +12,7 @@ from common import Ctx, driver_json
 import core_lib as cl
 
 PROPERTY = "C02"
-LEAN_MODULES = ["Proofs.C02", "Proofs.C02.Rerun"]
+LEAN_MODULES = ["Proofs.C02", "Proofs.C02.Rerun", "Proofs.C02.DrivingMarket"]
 DRIVERS = ["driver_core"]
 RULE = ("pairs of random histories sharing a prefix of k bars (k random, suffixes of different length and content) x market mix {probe market with "
         "data-dependent value, two probe markets minutely+hourly, real UniLpMarket, Uni+Aave, Uni+Deribit (hourly order books; the histories part on "
@@ -23,7 +23,9 @@ RULE = ("pairs of random histories sharing a prefix of k bars (k random, suffixe
         "listed sorted / far expiry first / shuffled, single quotes missing from single hourly snapshots x adaptive scripted strategies whose "
         "decisions depend on the snapshot (incl. read-only estimate_cost queries on the bar's order book, off-hour deribit deposits / withdrawals "
         "with data-dependent amounts) and which own stateful triggers of every class (two installed at construction, three by initialize()); "
-        "seed-independent crafted pairs: off-hour balance changes around a mid-hour parting point, a held option whose quote is missing from the "
+        "two probe markets whose frames cover different stretches (the second starts inside the common prefix; in the second history it does or does "
+        "not end up with more rows than the first: the bar index is the index of the market with the most rows — finding E-5); "
+        "seed-independent crafted pairs: the reviewer's [0,60,120]+[60,120] vs [0,60,120]+[60..240] frames, off-hour balance changes around a mid-hour parting point, a held option whose quote is missing from the "
         "last common snapshot and back afterwards, cost queries on books listed best-first. "
         "Per pair: history 1, then the SAME strategy object on the SAME frames with a fresh Actuator/Broker/markets (same process), then history 2. "
         "Compared on the common prefix: account rows, every field of every market's balance entry per bar, actions, snapshots; within each run: "
@@ -106,7 +108,37 @@ def gen_pair(rng, kind=None, small=False):
         case["book_holes"] = rng.random() < 0.5
     if kind.startswith("uni") and rng.random() < 0.35:
         case["tick_float"] = True     # tick columns as float64 without NaN: what a reindex + forward fill of the raw minute rows leaves
+    if kind == "probe2" and not case.get("holes"):
+        stagger(case)
     return case
+
+
+def stagger(case):
+    """E-5: two markets whose frames cover different stretches.  The first market's frame ends `m0` minutes into the history (inside or at the
+    end of the first history), the second market's frame starts at minute `from` (inside the common prefix) and runs to the end of the history.
+    In the first history the first market has at least as many rows as the second and defines the bar index; in the second history either
+    the same holds ("same driving market": the clause must hold) or the second market has more rows — a fact that lies entirely after the
+    common prefix — and the run is over ITS index.  Drawn from the case's own seed (the main stream is not touched)."""
+    import random
+    r = random.Random(case["seed"] ^ 0x5e5)
+    if r.random() < 0.3:
+        return
+    k, unit = case["k"], case["interval"]
+    n1 = k + len(case["s1"])
+    o = r.randint(1, max(1, k - 1))
+    if o >= n1:
+        return                            # the second market would have no row at all in the first history
+    m0 = r.randint(max(k, n1 - o), n1)
+    room = m0 - k + o                    # the second history may be this long after the prefix without the second market outgrowing the first
+    if r.random() < 0.5:
+        extra = r.randint(1, 2 * unit + 1)
+        last = (case["s2"] or case["pre"])[-1]["close"]
+        need = room + extra - len(case["s2"])
+        if need > 0:
+            case["s2"] = case["s2"] + gen_bars(r, need, last)
+    else:
+        case["s2"] = case["s2"][:room]
+    case["outgrow"] = {"from": o, "m0": m0}
 
 
 # ------------------------------------------------------------------------------------------ inputs, hashed as supplied
@@ -233,7 +265,15 @@ def make_inputs(case, bars):
     fr = inp["frames"]
     if kind.startswith("probe"):
         fr["m0"] = pd.DataFrame({"x": times, "v": [b["v"] for b in bars]}, index=index)
-        if kind == "probe2":
+        og = case.get("outgrow")
+        if kind == "probe2" and og:
+            # E-5: the first market's frame ends `m0` minutes into the history, the second market's starts at minute `from` and runs to the
+            # end of the history: whichever frame has more rows defines the run's bar index (Actuator.get_test_range)
+            sel = list(range(og["from"], n))
+            fr["m0"] = fr["m0"].iloc[:og["m0"]]
+            if sel:
+                fr["m1"] = pd.DataFrame({"x": [times[i] for i in sel], "v": [bars[i]["v"] for i in sel]}, index=index[sel])
+        elif kind == "probe2":
             hrs = [i for i, t in enumerate(times) if t % 3600 == 0]
             if hrs:
                 fr["m1"] = pd.DataFrame({"x": [times[i] for i in hrs], "v": [bars[i]["v"] for i in hrs]}, index=index[hrs])
@@ -741,6 +781,9 @@ def run_once(case, inp, strategy=None):
     internal_before = {k: digest(v) for k, v in internal.items()}
     ctx_before = dec_context()
     err = None
+    # the market whose frame has the most distinct timestamps as supplied (the first of them in broker order), counted here on the frames
+    sizes = [(mi.name, len(set(m.data.index.get_level_values(0)))) for mi, m in a.broker.markets.items()]
+    driving = next(nm for nm, sz in sizes if sz == max(z for _, z in sizes)) if sizes else None
     try:
         a.run(print_result=False)
     except Exception as e:  # noqa: BLE001
@@ -756,7 +799,7 @@ def run_once(case, inp, strategy=None):
         entries = [[str(v) for v in s_.to_array()] for s_ in a.account_status]      # every field of every market's balance object, per bar
     return {"entries": entries, "then": obs["then"], "rows": rows, "actions": actions, "snaps": obs["snaps"], "assembled": assembled, "after": after, "err": err, "did": sorted(obs["did"]),
             "internal": (internal_before, internal_after), "dctx": (ctx_before, ctx_after), "bars": [r[0] for r in rows], "strategy": a.strategy,
-            "n_triggers": len(a.strategy.triggers)}
+            "n_triggers": len(a.strategy.triggers), "driving": driving, "sizes": sizes}
 
 
 def prefix_of(res, n_bars):
@@ -811,8 +854,22 @@ def check_pair(ctx: Ctx, case):
     if kind == "uni+deribit" and iv == 1:
         n_common = case["k"]
     a1, a2 = prefix_of(r1, n_common), prefix_of(r2, n_common)
+    # the bars themselves: the timestamps of the first n_common bars are a function of the common prefix.  If they differ, everything else of the
+    # prefix differs as a consequence; reported once, under the cause (which market has the most rows is decided on the frames as supplied)
+    same_bars = r1["bars"][:n_common] == r2["bars"][:n_common]
+    if not same_bars:
+        d = first_diff(r1["bars"][:n_common], r2["bars"][:n_common])
+        if r1["driving"] != r2["driving"]:
+            ctx.violate("lookahead:bar-index:driving-market-changes-in-suffix",
+                        f"two {kind} histories sharing {case['k']} minutes of data (every frame identical on the shared bars): the market with the most rows "
+                        f"is {r1['driving']} in the first ({r1['sizes']}) and {r2['driving']} in the second ({r2['sizes']}) — decided by rows AFTER the common "
+                        f"prefix — so bar {d} of the run is {r1['bars'][d:d + 1]} vs {r2['bars'][d:d + 1]} and the account rows of the prefix differ "
+                        f"({str(a1[0][d:d + 1])[:120]} vs {str(a2[0][d:d + 1])[:120]})", rep)
+        else:
+            ctx.violate(f"lookahead:{kind}:i{iv}:bar-index", f"bar {d} of the run is {r1['bars'][d:d + 1]} vs {r2['bars'][d:d + 1]} for two histories sharing "
+                        f"{case['k']} minutes of data and the same driving market {r1['driving']}", rep)
     for name, x, y in (("account", a1[0], a2[0]), ("actions", a1[1], a2[1]), ("snapshots", a1[2], a2[2])):
-        if x != y:
+        if x != y and same_bars:
             d = first_diff(x, y)
             ctx.violate(f"lookahead:{kind}:i{iv}:{name}",
                         f"{name} of bar-prefix {n_common} differ between two histories sharing {case['k']} minutes of data (first difference at item {d}: "
@@ -828,7 +885,7 @@ def check_pair(ctx: Ctx, case):
                             f"bar wrote into an earlier bar's entry", rep)
                 break
     e1, e2 = r1["entries"][:n_common], r2["entries"][:n_common]
-    if e1 != e2:
+    if e1 != e2 and same_bars:
         d = first_diff(e1, e2)
         ctx.violate(f"lookahead:{kind}:i{iv}:account-entries", f"the per-market balance entries of bar-prefix {n_common} differ between two histories sharing "
                     f"{case['k']} minutes of data (bar {d}: {str(e1[d:d + 1])[:160]} vs {str(e2[d:d + 1])[:160]})", rep)
@@ -871,6 +928,8 @@ def check_pair(ctx: Ctx, case):
             if r1["n_triggers"] != r1b["n_triggers"]:
                 ctx.violate(f"rerun-differs:{kind}:trigger-list", f"strategy.triggers holds {r1['n_triggers']} objects after the first run, {r1b['n_triggers']} after the second", rep)
     pc = "all" if not case["s1"] else "short" if n_common <= 2 else "long"
+    if case.get("outgrow"):
+        pc += ":staggered-" + ("same-driver" if r1["driving"] == r2["driving"] else "driver-changes" + ("" if not same_bars else "-same-bars"))
     did = set(r1["did"]) | set(r2["did"])
     trig = "+".join(sorted(x for x in did if x.startswith("trig-")))
     ctx.case(f"{tagbase}:{pc}:{'+'.join(sorted(x for x in did if not x.startswith('trig-'))) or 'idle'}:{'trig' if trig else 'notrig'}:ok",
@@ -1000,6 +1059,12 @@ def crafted_pairs():
                 "seed": 15, "price_kind": "native", "form": "tuple", "row_order": "far-first",
                 "plan": {"0": [["estimate", "ETH-X-1700-C", 2], ["buy", "ETH-X-1700-C", 2]], "60": [["estimate", "ETH-X-1700-C", 2], ["estimate", "ETH-X-1900-C", 1]]},
                 "crafted": "estimate-cost"})
+    # (d) E-5, the reviewer's input: markets [0,60,120] and [60,120] versus [0,60,120] and [60,…,240]; and the same frames where the second market
+    #     does not outgrow the first ([60,…,180]: three rows each, the first market still defines the index)
+    for n2, name in ((2, "driver-changes"), (1, "same-driver")):
+        pre = gen_bars(rng, 3, 201000)
+        out.append({"kind": "probe2", "interval": 1, "start": 0, "k": 3, "pre": pre, "s1": [], "s2": gen_bars(rng, n2, pre[-1]["close"]), "seed": 16,
+                    "price_kind": "decimal", "form": "frame", "aux": False, "outgrow": {"from": 1, "m0": 3}, "crafted": "staggered-" + name})
     return out
 
 
